@@ -1,9 +1,10 @@
 import SJ.Proofs.Facts
+import SJ.Proofs.Reuse
 /-
 C15 — Reusing a ParsedJson or Serializer never leaks earlier state.
 -/
 namespace SJ.Properties.C15
-open SJ SJ.Generated
+open SJ SJ.Generated SJ.Reuse
 
 /-- Every piece of per-call parser state that survives in a reused object is reset on entry. -/
 theorem C15_parse_resets :
@@ -16,5 +17,76 @@ theorem C15_parse_resets :
 /-- The complete list of assignments the entry points make to the per-call object. -/
 theorem C15_parse_assignments : parseAssignments.length = 15 ∧ parseAssignments.head? = some "internalParsedJson.initialize:pj.Tape" := by
   rw [Facts.parse_assignments]; decide
+
+/-- **History independence of the state the two stages start from.** `enter c msg nd copy` is the per-call object as
+    `newInternalParsedJson` + `parseMessage` + `initialize` leave it, computed from what earlier calls left behind (`c`:
+    any tape, string buffer, scope stack, index buffer cursor, slot counter, flags) by resetting exactly the fields the
+    *source* assigns on entry (`Generated.parseAssignments`). For any two histories the entry states coincide (up to the
+    channel contents, shown empty below, and the write-only `isvalid`). -/
+theorem C15_entry_state_history_independent (c c' : Carry) (msg : Bytes) (nd copy : Bool) :
+    { enter c msg nd copy with queue := [], isvalid := false } = { enter c' msg nd copy with queue := [], isvalid := false } :=
+  enter_indep c c' msg nd copy
+
+/-- … and stage 2 starts from the same machine state as on a fresh object, whatever the history: `unifiedMachine`
+    appends to `Tape`, `Strings.B`, `containingScopeOffset` as it finds them, and it finds them empty. -/
+theorem C15_machine_start (c : Carry) (msg : Bytes) (nd copy : Bool) : initFrom (enter c msg nd copy) = M.init :=
+  initFrom_enter c msg nd copy
+
+theorem C15_entry_fields (c : Carry) (msg : Bytes) (nd copy : Bool) :
+    (enter c msg nd copy).message = trimSpace msg ∧ (enter c msg nd copy).nd = nd ∧ (enter c msg nd copy).copyStrings = copy ∧
+    (enter c msg nd copy).ixIndex = 0 ∧ (enter c msg nd copy).ixLength = 0 ∧ (enter c msg nd copy).bufOffset = 2^64 - 1 :=
+  enter_fields c msg nd copy
+
+/-- **Every field of the per-call object is accounted for**: reset on entry, or `isvalid` (never read anywhere:
+    `C15_isvalid_write_only`), `indexChans` (the channel object is kept, but it is empty whenever `parseMessage` returns:
+    `C15_sync_channel_empty`, `C15_async_channel_empty`), `buffers` (a ring slot is filled before it is handed over and not
+    refilled while it can still be read: C07), `ParsedJson` (embedded; `Message`, `Tape`, `Strings` reset, `internal`
+    cleared). A field added without a reset — or a new reader of `isvalid` — breaks one of these theorems. -/
+theorem C15_fields_covered :
+    fieldsinternalParsedJson.all (fun f =>
+      (["containingScopeOffset", "indexesChan", "buffersOffset", "ndjson", "copyStrings"].contains f && assignedAny f) ||
+      ["isvalid", "indexChans", "buffers", "ParsedJson"].contains f) = true ∧
+    fieldsParsedJson.all (fun f => assignedAny f || assignedAny ("ParsedJson." ++ f)) = true := fields_covered
+
+theorem C15_isvalid_write_only : parserFieldsUsed.contains "isvalid" = false := isvalid_write_only
+
+/-- **The channel is empty on every return path of the synchronous branch** (inputs up to 8 KiB: at most
+    `n + 1 ≤ cap` items are ever queued, C05): after a stage-1 failure, after success, and after a stage-2 failure at
+    any point of its consumption. -/
+theorem C15_sync_channel_empty (n : Nat) (stage1ok stage2ok : Bool) (taken : Nat) (ht : taken ≤ n + 1) :
+    syncLeftover n stage1ok stage2ok taken = [] := sync_leaves_empty n stage1ok stage2ok taken ht
+
+/-- **… and on the concurrent branch**, for every schedule, once the terminator has been received (stage 2 consumes up
+    to the terminator also when it failed). -/
+theorem C15_async_channel_empty (c : Pipeline.Cfg) (hc : c.cap + 2 ≤ c.slots) (evs : List Pipeline.Ev) (s : Pipeline.St)
+    (hr : Pipeline.run c {} evs = some s) (ht : s.termRecv = true) : Pipeline.queued s = 0 :=
+  async_leaves_empty c hc evs s hr ht
+
+/-- The text of the three entry points, statement by statement, is the one the models above were read from
+    (regenerated on every run; any edit of these functions has to be re-examined against `enter`, `drainRange`,
+    `drainSelect`, `syncLeftover`). -/
+theorem C15_entry_sources :
+    srcInitialize.length = 9 ∧ srcParseMessage.length = 9 ∧ srcNewInternal.length = 7 ∧
+    srcInitialize.getLast? = some "pj.indexesChan = indexChan{}" ∧
+    srcNewInternal.getD 4 "" = "pj.copyStrings = true" := by
+  rw [source_initialize, source_parseMessage, source_newInternal]; decide
+
+/-- a dirty object: tape, strings, open scopes, half-read index buffer, flags of an ND no-copy call -/
+def dirty : Carry :=
+  { tape := #[1, 2, 3]
+    strings := #[65]
+    scope := [5, 9]
+    ixIndex := 3
+    ixLength := 7
+    bufOffset := 12
+    nd := true
+    copyStrings := false
+    isvalid := true }
+
+/-- non-vacuity -/
+example : (enter dirty #[91, 93] false true).tape = #[] ∧ (enter dirty #[91, 93] false true).scope = [] ∧
+    (enter dirty #[91, 93] false true).copyStrings = true := by
+  obtain ⟨h1, _, _, _, h5, _, _, _, h9⟩ := SJ.Reuse.assigned_all
+  simp [enter, h1, h5, h9]
 
 end SJ.Properties.C15
